@@ -169,12 +169,11 @@ theorem extract_ok (p : PHdr) (port : Nat) (hr : v.regular p = true) :
     ExtractOk p (v.extract true p (some port)) (Spec.headers p port) := extract_ok_auxG (!v.arpLow8) p port hr
 
 /-- a flow built from a packet's own match matches that packet — in every variant -/
-theorem selfflow_accepts (sf : Bool) (p : PHdr) (ip : Option Nat) :
-    matchesWith false (v.ofWire (packFlowMod (fromHeaders (v.extract sf p ip)))) (fromHeaders (v.extract sf p ip)) = true := by
+theorem selfflow_accepts_o (o : OHeaders) :
+    matchesWith false (v.ofWire (packFlowMod (fromHeaders o))) (fromHeaders o) = true := by
   rw [ofWire_left]
   -- the packed record has dl_type / nw_proto zero wherever they are wildcarded, so normalising changes nothing
-  have hpre : v.pre (packFlowMod (fromHeaders (v.extract sf p ip))) = packFlowMod (fromHeaders (v.extract sf p ip)) := by
-    generalize v.extract sf p ip = o
+  have hpre : v.pre (packFlowMod (fromHeaders o)) = packFlowMod (fromHeaders o) := by
     have hd := pack_dlType o
     have hn := pack_nwProto o
     have hw4 := packFlowMod_wild o .dlType
@@ -205,6 +204,10 @@ theorem selfflow_accepts (sf : Bool) (p : PHdr) (ip : Option Nat) :
     rw [e1, e2]
   rw [hpre]
   exact OF.selfflow_accepts _
+
+theorem selfflow_accepts (sf : Bool) (p : PHdr) (ip : Option Nat) :
+    matchesWith false (v.ofWire (packFlowMod (fromHeaders (v.extract sf p ip)))) (fromHeaders (v.extract sf p ip)) = true :=
+  v.selfflow_accepts_o _
 
 /-! ### exactness and rank -/
 
@@ -533,14 +536,14 @@ theorem extractG_maskP (g sf : Bool) (p : PHdr) (ip : Option Nat) : extractG g s
 
 theorem regularG_maskP (g : Bool) (p : PHdr) : regularG g (maskP p) = regularG g p := by
   obtain ⟨src, dst, typ, llc, vlan, l3⟩ := p
-  cases l3 <;> cases vlan <;> cases llc <;> simp [maskP, regularG, Spec.dlTypeOf, Spec.etherType]
+  cases l3 <;> rfl
 
 theorem headers_maskP (p : PHdr) (port : Nat) : Spec.headers (maskP p) port = Spec.headers p port := by
   obtain ⟨src, dst, typ, llc, vlan, l3⟩ := p
   cases l3 with
   | ipv4 s d pr tos frag l4 =>
     have e : dscpOf tos / 4 * 4 = tos / 4 * 4 := by unfold dscpOf; omega
-    cases vlan <;> cases llc <;> simp [maskP, Spec.headers, Spec.dlTypeOf, Spec.etherType, Spec.zeroL3, e]
+    cases vlan <;> cases llc <;> simp [maskP, Spec.headers, Spec.dlTypeOf, Spec.etherType, Spec.zeroL3, e] <;> (try rfl)
   | arp op s d => rfl
   | other => rfl
 
@@ -600,10 +603,9 @@ theorem accepts_packet (r : OfMatch) (p : PHdr) (port : Nat) (hp : v.prereqExact
   · rw [mww_raw v hv, pktMatch, pktHeaders_raw v hv]
     exact wire_accepts_packet v r p port hp (ht hv).1 hr (ht hv).2
   · unfold mww
-    rw [dscpM_ofWire v hv, pktMatch, pktHeaders_eq v hv]
-    have he : v.extract true (maskP p) (some port) = maskO (v.extract true p (some port)) := extractG_maskP _ _ _ _
-    rw [← he] at *
-    rw [he, dscpM_fromHeaders_maskO, ← he, ← matchHdr_dscpR r, ← headers_maskP p port]
+    rw [dscpM_ofWire v hv, pktMatch, pktHeaders_eq v hv, dscpM_fromHeaders_maskO]
+    have he : maskO (v.extract true p (some port)) = v.extract true (maskP p) (some port) := (extractG_maskP _ _ _ _).symm
+    rw [he, ← matchHdr_dscpR r, ← headers_maskP p port]
     have hr' : v.regular (maskP p) = true := by unfold Variant.regular; rw [regularG_maskP]; exact hr
     exact wire_accepts_packet v (dscpR r) (maskP p) port (fun h => prereq_dscpR r (hp h)) (dscpOf_mod _) hr' (pktTos_maskP p)
 
@@ -617,6 +619,29 @@ theorem subsumes_code (a b : OfMatch) (ha : v.prereqExact = false → PrereqExac
     rw [dscpM_ofWire v hv, dscpM_ofWire v hv, ← subsumes_dscpR a b]
     exact code_subsumes v (dscpR a) (dscpR b) (fun h => prereq_dscpR a (ha h)) (fun h => prereq_dscpR b (hb h))
       (dscpOf_mod _) (dscpOf_mod _) hbw
+
+/-- a flow built from a packet's own match matches that packet — every variant, D36 included -/
+theorem selfflow_mww (sf : Bool) (p : PHdr) (ip : Option Nat) :
+    v.mww false (v.ofWire (packFlowMod (fromHeaders (v.pktHeaders sf p ip)))) (fromHeaders (v.pktHeaders sf p ip)) = true := by
+  cases hv : v.tosDscp
+  · rw [mww_raw v hv, pktHeaders_raw v hv]; exact v.selfflow_accepts sf p ip
+  · unfold mww
+    rw [pktHeaders_eq v hv, dscpM_ofWire v hv, dscpM_fromHeaders_maskO]
+    generalize v.extract sf p ip = o
+    have hW : dscpR (packFlowMod (fromHeaders (maskO o))) = packFlowMod (fromHeaders (maskO o)) := by
+      have hv' : (fromHeaders (maskO o)).view .nwTos = (maskO o).nwTos := fromHeaders_view (maskO o) .nwTos
+      have : (packFlowMod (fromHeaders (maskO o))).nwTos % 4 = 0 := by
+        simp only [packFlowMod, hv']
+        split
+        · show ((Option.map dscpOf o.nwTos).getD 0) % 4 = 0
+          cases o.nwTos with
+          | none => rfl
+          | some t => simp [dscpOf_mod]
+        · rfl
+      unfold dscpR
+      rw [dscpOf_of_mod _ this]
+    rw [hW]
+    exact v.selfflow_accepts_o _
 
 /-- Lookup in any table that is sorted by the variant's effective priority and whose entries stem from transmitted flows answers as
     the standard prescribes for the flows the table holds. -/
@@ -750,6 +775,20 @@ theorem Variant.selfflow_exact (v : Variant) (hv : v.exactSig = true) (p : PHdr)
   simp only [Variant.fromPacket, Variant.extract]
   rw [this]; rfl
 
+
+/-- … for the match the variant's `from_packet` really builds (ToS reduced to DSCP with repair D36) -/
+theorem Variant.selfflow_exact_pkt (v : Variant) (hv : v.exactSig = true) (p : PHdr) (port : Nat) (hr : v.regular p = true) :
+    v.isWildcarded (v.ofWire (packFlowMod (v.pktMatch p port))) = false := by
+  cases ht : v.tosDscp
+  · have e : v.pktMatch p port = v.fromPacket p port := by
+      unfold Variant.pktMatch Variant.fromPacket; rw [Variant.pktHeaders_raw v ht]
+    rw [e]; exact v.selfflow_exact hv p port hr
+  · have e : v.pktMatch p port = v.fromPacket (Variant.maskP p) port := by
+      unfold Variant.pktMatch Variant.fromPacket
+      rw [Variant.pktHeaders_eq v ht]
+      exact congrArg fromHeaders (Variant.extractG_maskP _ _ _ _).symm
+    rw [e]
+    exact v.selfflow_exact hv (Variant.maskP p) port (by unfold Variant.regular; rw [Variant.regularG_maskP]; exact hr)
 
 /-! ### a table built from a list of flow-mods -/
 
